@@ -1109,6 +1109,22 @@ impl<'a> Interp<'a> {
                 self.dests.remove(&to);
             }
         }
+        if got_ok && op.starts_with("copy") && !self.deferred && pre != FileState::Absent {
+            // the caller had the copy written onto a file that an earlier extraction had handed out as a hard link of
+            // ANOTHER entry's content: that content (same inode) is overwritten - the caller's doing, like any other
+            // write through such a link
+            let rels: Vec<String> = self.m.content.iter().filter(|(r, c)| c.state == CState::Pristine && !c.is_link && hash::content_rel(&sri).as_deref() != Some(r.as_str())).map(|(r, _)| r.clone()).collect();
+            for rel in rels {
+                if let Ok(b) = std::fs::read(self.cache.join(&rel)) {
+                    if let Some(c) = self.m.content.get_mut(&rel) {
+                        if b != c.orig {
+                            c.state = CState::Damaged;
+                            *self.out.faults.entry("content.through_hard_link".to_string()).or_insert(0) += 1;
+                        }
+                    }
+                }
+            }
+        }
         if got_ok && op.starts_with("copy") && self.target_modes.contains_key(&to) {
             // the caller asked for a copy onto this path: the permission bits it has now are the caller's doing
             self.target_modes.insert(to.clone(), std::fs::metadata(&to).ok().map(|m| std::os::unix::fs::PermissionsExt::mode(&m.permissions()) & 0o7777));
